@@ -282,3 +282,9 @@ for _sf in ("index", "label", "object"):
 CASES.append(accessor_case("label", "tuple", given_state=False))
 CASES.append(accessor_case("index", "index", given_state=False))
 CASES.append(regenerate_case())
+
+
+# spaces and networks given as dictionaries: which units a bare volume or density is read in (C04's reader cases)
+from props import C04 as _C04
+for _k in ("species", "network", "grid", "graph", "system"):
+    CASES.append(_C04.reader_case(_k))
